@@ -39,7 +39,7 @@ def run(ctx, replay):
         return
     thorough = ctx.tier == "thorough"
     # M: the code's stage order keeps the log/sequence invariants under every crash point ...
-    ctx.model_check("MCNodeRecovery", "MCNodeRecovery_code_core.cfg", timeout=1200)
+    ctx.model_check("MCNodeRecovery", "MCNodeRecovery_code_core_thorough.cfg" if thorough else "MCNodeRecovery_code_core.cfg", timeout=1800)
     # ... the order that freezes the memory database before the metadata prepare-flush satisfies all five ...
     ctx.model_check("MCNodeRecovery", "MCNodeRecovery.cfg", timeout=1200)
     # ... and the code's order does not (the known finding, re-confirmed in the model)
@@ -49,6 +49,8 @@ def run(ctx, replay):
     ctx.model_check("MCNodeRecovery", "MCNodeRecovery_code_reapply.cfg", expect="violation", timeout=600)
     # the opposite order (sequence committed before the rows are written) loses the entry instead
     ctx.model_check("MCNodeRecovery", "MCNodeRecovery_dev_commitfirst.cfg", expect="violation", timeout=600)
+    # the index flush committing the series family before the index families leaves a series without index entries
+    ctx.model_check("MCNodeRecovery", "MCNodeRecovery_dev_seriesfirst.cfg", expect="violation", timeout=600)
     tr = os.path.join(ctx.scratch, "node.ndjson")
     scr = os.path.join(ctx.scratch, "scr-node")
     os.makedirs(scr, exist_ok=True)
